@@ -218,9 +218,44 @@ func fixedBehind(cooldownMs int) string {
 	return fmt.Sprintf("size=%d", b.Size())
 }
 
+// fixedNoConsumers: the forced trim of FixedBufferCleaner does not depend on anybody reading: with NO consumer registered (none yet,
+// or the last one closed) a buffer that grows past max is cut back to target at the next evaluation.
+func fixedNoConsumers(cooldownMs int, afterClose bool) string {
+	b := new(bigbuff.Buffer)
+	defer func() { go b.Close() }()
+	if err := b.SetCleanerConfig(bigbuff.CleanerConfig{Cleaner: bigbuff.FixedBufferCleaner(10, 4, nil), Cooldown: time.Duration(cooldownMs) * time.Millisecond}); err != nil {
+		return "setup-error"
+	}
+	bg := context.Background()
+	if afterClose {
+		c, err := b.NewConsumer()
+		if err != nil {
+			return "setup-error"
+		}
+		b.Put(bg, 1, 2)
+		c.Get(bg)
+		c.Commit()
+		if c.Close() != nil {
+			return "setup-error"
+		}
+	}
+	for i := 0; i < 45; i++ {
+		b.Put(bg, 100+i)
+	}
+	deadline := time.Now().Add(time.Duration(3*cooldownMs)*time.Millisecond + time.Second)
+	for b.Size() > 10 && time.Now().Before(deadline) {
+		time.Sleep(200 * time.Microsecond)
+	}
+	return fmt.Sprintf("size_le_max=%v", b.Size() <= 10)
+}
+
 func execCleanGate(t *trace, script []string) {
 	for _, line := range script {
 		f := strings.Fields(line)
+		if len(f) == 3 && f[0] == "fixednocons" {
+			t.Line(line, fixedNoConsumers(atoi(f[1]), f[2] == "1"))
+			continue
+		}
 		if len(f) == 2 && f[0] == "busy" {
 			t.Line(line, busyOne(atoi(f[1])))
 			continue
@@ -252,7 +287,7 @@ func genCleanGate(r *rng.R, tier string, i int) []string {
 			}
 		}
 	}
-	s = append(s, fmt.Sprintf("busy %d", 40+r.Intn(30)), "fixedbehind 0", "fixedbehind 10")
+	s = append(s, fmt.Sprintf("busy %d", 40+r.Intn(30)), "fixedbehind 0", "fixedbehind 10", "fixednocons 0 0", "fixednocons 10 1")
 	for k := len(s) - 1; k > 0; k-- {
 		j := r.Intn(k + 1)
 		s[k], s[j] = s[j], s[k]
